@@ -346,6 +346,7 @@ func runC05(r *vf.Run) {
 			r.Sample("dataset", map[string]any{"id": id, "rows": len(ds.Rows), "distinct_values": nvals, "probes": len(ps), "specs": specStrings(ds), "first_rows": witnessRows(ds, 3)})
 		}
 	})
+	racePass(r)
 	r.Floor("in-memory writer batch boundary (1000 values) crossed", r.GetCount("mem_writer_batch_commits_crossed") > 0)
 	r.Floor("big writer temp-commit boundary (1000 rows) crossed", r.GetCount("big_writer_temp_commits_crossed") > 0)
 	r.Floor("reopen histories", r.GetCount("reopens") > 0)
